@@ -613,9 +613,32 @@ pub fn gen_case(rng: &mut Rng) -> Case {
                 mparts.push(format!("$md{k}"));
                 exp_main.push(format!("[\"{tag}\",{k}]"));
             }
+            // a *different* module of the same file name, found from the main program's side:
+            // two files called leaf.jq are two modules (load-once is per file, not per name)
+            let leafm_tag = g.tag(&format!("{}/mdir/leaf.jq", parent_dir));
+            g.put(FileSpec::file(lex_join(&lex_join(parent_dir, "mdir"), "leaf.jq"), format!("def leafm: \"{leafm_tag}\";\n"), 0o644));
+            let same_file = lex_join(&lex_join(parent_dir, "mdir"), "leaf.jq") == lex_join(&subdir, "leaf.jq");
+            // ... and a third one in the library directory, asked for *without* metadata after the
+            // other two have been loaded: it is found through the library paths, whatever was
+            // loaded under that name before
+            let lib_leaf = lex_join(&dir, "leaf.jq");
+            let lib_distinct = lib_leaf != lex_join(&subdir, "leaf.jq") && lib_leaf != lex_join(&lex_join(parent_dir, "mdir"), "leaf.jq") && !same_file;
+            let leafl_tag = g.tag(&lib_leaf);
+            if lib_distinct {
+                g.put(FileSpec::file(lib_leaf.clone(), format!("def leafl: \"{leafl_tag}\";\n"), 0o644));
+            }
             let inc = "include \"na\";\n";
-            prog = if before { format!("{mh}{inc}[who_a, {}]", mparts.join(", ")) } else { format!("{inc}{mh}[who_a, {}]", mparts.join(", ")) };
-            let expected = format!("[[{},\"{leaf_tag}\"],{}]\n", exp_mod.join(","), exp_main.join(","));
+            let inc2 = if same_file { "" } else { "include \"leaf\" {search: \"mdir\"};\n" };
+            let leafm = if same_file { "null".to_string() } else { "leafm".to_string() };
+            let (inc3, leafl) = if lib_distinct { ("include \"leaf\";\n", "leafl".to_string()) } else { ("", "null".to_string()) };
+            prog = if before {
+                format!("{mh}{inc}{inc2}{inc3}[who_a, {}, {leafm}, {leafl}]", mparts.join(", "))
+            } else {
+                format!("{inc2}{inc}{inc3}{mh}[who_a, {}, {leafm}, {leafl}]", mparts.join(", "))
+            };
+            let leafm_out = if same_file { "null".to_string() } else { format!("\"{leafm_tag}\"") };
+            let leafl_out = if lib_distinct { format!("\"{leafl_tag}\"") } else { "null".to_string() };
+            let expected = format!("[[{},\"{leaf_tag}\"],{},{leafm_out},{leafl_out}]\n", exp_mod.join(","), exp_main.join(","));
             directives.push(Directive {
                 kind: "nested".into(),
                 name: expected,
